@@ -50,6 +50,23 @@ class P(StreamProperty):
         return cases
 
     def extra_stats(self, cases, res):
+        # hypotheses of C15_truthful (staircase shape, column weights) evaluated by the model on every matrix whose flag is true
+        lines = []; keys = []
+        seen = set()
+        for c in cases:
+            cfg = c.meta['cfg']
+            key = (cfg.k, cfg.n, cfg.N1, cfg.seed)
+            if c.meta.get('flag') == 1 and key not in seen:
+                seen.add(key)
+                H, _ = pyref.rfc5170(cfg.k, cfg.n, cfg.N1, cfg.seed)
+                lines.append('colcheck %d %d %s' % (cfg.k, cfg.n, ''.join(','.join(str(e) for e in sorted(r)) + ';' for r in H)))
+                keys.append(key)
+        outs = common.run_model(lines) if lines else []
+        bad = [keys[i] for i, o in enumerate(outs) if o != 'ok stair=1 lastnull=1']
+        res.cov['flag_true_matrices_hypotheses_checked'] = len(keys)
+        if bad:
+            res.violation('c15:hypothesis', 'the flag is true for %s but the column-weight / staircase hypothesis of C15_truthful does not hold' % (bad[0],),
+                          replay={'broken': 'hypotheses of C15_truthful', 'config': list(bad[0])}, no_input=True)
         res.cov['cases_flag_true'] = sum(1 for c in cases if c.meta.get('flag') == 1)
         res.cov['cases_even_N1_flag_false'] = sum(1 for c in cases if c.meta.get('flag') == 0 and c.meta['cfg'].N1 % 2 == 0)
 
